@@ -479,7 +479,7 @@ EXPECT.update({
     'reset-race-hang': 'reset() returns in bounded time under every interleaving with the timer thread',
 })
 
-RR_REQUIRE_HOOKS = False      # set to True once the hook points are in /repo: their absence is then an error, not a skip
+RR_REQUIRE_HOOKS = True       # set to True once the hook points are in /repo: their absence is then an error, not a skip
 
 
 def rr_model_sched(order, locks, hold, k):
